@@ -1178,9 +1178,11 @@ def run(chk, ctx):
         timed('K gen apply', PR.k_gen_apply, chk, ctx, R('k-gen-apply'), 60 if quick else 600)
         timed('K gen integrate', PR.k_gen_integrate, chk, ctx, R('k-gen-integrate'))
         timed('K classify', PR.k_classify, chk, ctx, R('k-classify'), 10 if quick else 100)
+        timed('K gen import exported', PR.k_gen_import_exported, chk, ctx, R('k-gen-import-exported'), 9 if quick else 90, eval_sym)
     if not any(e is not None for e in chk.translate.values()):
         guard_generated('after the correspondence')
     timed('L3 edges', l3_edges, chk, ctx)
+    timed('L3 frozen dt', PR.frozen_dt_oracle, chk, ctx, R('frozen-dt'), 4 if quick else 30)
     timed('L3 graph', l3_graph_vs_program, chk, ctx, R('graph'), 40 if quick else 500, False, 1.0 if quick else 4.0)
     timed('L3 ancient', l3_graph_vs_program, chk, ctx, R('ancient'), 14 if quick else 200, True, 1.0 if quick else 4.0)
     timed('L3 slice', l3_slice, chk, ctx, R('slice'), 16 if quick else 240, 1.0 if quick else 4.0)
@@ -1195,7 +1197,7 @@ def replay(chk, ctx, data):
         l3_edges(chk, ctx)
     elif inp.get('kind') in ('prepare-units', 'steps-scale', 'steps-order', 'admix-axis'):
         G.replay_case(chk, ctx, inp)
-    elif inp.get('kind') in ('integrate-wiring', 'Ne-threaded'):
+    elif inp.get('kind') in ('integrate-wiring', 'Ne-threaded', 'scale-frozen', 'frozen-dt'):
         PR.replay_case(chk, ctx, inp)
     else:
         eval_case(chk, ctx['dadi'], inp)
